@@ -469,6 +469,9 @@ def finish(ctx, replay_fn=None, level="model_checking", rule=""):
             log("[replay] %s did not reproduce in a fresh process; treating as infrastructure failure" % path)
             if rc == 0:
                 rc = 2
+    if ctx.drift:
+        log("[DRIFT] %d protocol-level differences between the specification's exact predictions and the code (never a violation; "
+            "on the unchanged tree: something to look at in the model or the harness)" % ctx.drift)
     write_evidence(ctx, level, rule, violations=confirmed, known=len(seen_known))
     return rc
 
